@@ -53,6 +53,8 @@ def random_edit(t, rng, donor):
         opts += ['dictkind', 'reverse', 'rename', 'addkey', 'drop', 'shuffle']
     if k == 'deque':
         opts += ['maxlen', 'drop']
+        if n['meta'] == 0 or n['meta'] - 1 > len(n['ch']):
+            opts.append('append')
     if k == 'nt' and n['cls'] in (11, 14):
         opts.append('ntcls')
     if k == 'custom' and not n['hasent']:
